@@ -84,12 +84,23 @@ def table_width(ch):
 
 
 class Text:
-    def __init__(self, s, enc):
+    def __init__(self, s, enc, keep_width=False):
         self.s = s
         self.enc = enc
         self.mode = MODE_OF[enc]
-        per = [c.encode(enc, "replace") for c in s]
-        self.bs = s.encode(enc, "replace")
+        if keep_width:
+            # output encoding: a character the codec lacks is shown as one '?' per column it occupies (the property does not
+            # say what stands in for it; what it does say - run lengths = encoded length - is judged on whatever comes out)
+            def one(c):
+                try:
+                    return c.encode(enc)
+                except UnicodeEncodeError:
+                    return b"?" * table_width(c)
+            per = [one(c) for c in s]
+            self.bs = b"".join(per)
+        else:
+            per = [c.encode(enc, "replace") for c in s]
+            self.bs = s.encode(enc, "replace")
         if b"".join(per) != self.bs:
             raise tlc.MachineryError(f"codec {enc} is not character-wise for {s!r}")
         self.chars = [{"cp": ord(c), "w": table_width(c), "b": len(p), "enc": list(p)} for c, p in zip(s, per)]
@@ -418,7 +429,7 @@ def work(item):
                 out.append(t.trace(sampled_events(t, rng, k)))
         elif kind == "enc":
             for s in item[2]:
-                t = Text(s, enc)
+                t = Text(s, enc, keep_width=True)
                 ev = [ev_enc(t, "str"), ev_enc(t, "bytes")]
                 ev += [ev_enc(t, "str", "\x0e", "\x0f"), ev_enc(t, "str", "\x0f", "\x0e"), ev_enc(t, "bytes", "\x0e", ""), ev_enc(t, "str", "\x0e\x0e", "\x0f\x0f\x0e")]
                 out.append(t.trace(ev, "enc"))
@@ -650,7 +661,7 @@ def replay(chk, path):
             trs = raw_traces(bytes(rp["raw"]), rp["mode"], rp["enc"])
             tr = next(t for t in trs if t["ev"][0]["op"] == op)
         else:
-            t = Text("".join(chr(c) for c in rp["cps"]), rp["enc"])
+            t = Text("".join(chr(c) for c in rp["cps"]), rp["enc"], keep_width=rp["kind"] == "enc")
             if op == "enc":
                 ev = ev_enc(t, e0["src"], "".join(map(chr, e0["pre"])), "".join(map(chr, e0["post"])))
             elif op in ("width", "step"):
